@@ -1,10 +1,9 @@
 From Coq Require Import ZArith List Bool Lia Znumtheory.
 From PySnark.Model Require Import Lc.
-From PySnark.Base Require Import FieldZ Fermat.
+From PySnark.Base Require Import FieldZ.
 Import ListNotations.
 Open Scope Z_scope.
 
-Definition wf (l : lc) : Prop := NoDup (map fst l).
 
 Lemma lc_get_none l v : lc_get l v = None <-> ~ In v (map fst l).
 Proof.
@@ -160,28 +159,3 @@ Proof.
 Qed.
 End SigP.
 
-(* ---- the inverse function ---- *)
-Theorem invert_correct p x : prime p -> x mod p <> 0 ->
-  exists y, invert x p = Some y /\ (x * y) mod p = 1 /\ 0 < y < p.
-Proof.
-  intros Hp Hx. pose proof (prime_ge_2 _ Hp) as H2. unfold invert.
-  destruct (Z.eqb_spec p 2) as [->|Hn2].
-  - assert (E : x mod 2 = 1) by (pose proof (Z.mod_pos_bound x 2); lia).
-    rewrite E. simpl. exists 1. split; [reflexivity|]. split; [rewrite Z.mul_1_r; exact E|lia].
-  - pose proof (finv_correct p x Hp Hx) as F. unfold finv in F.
-    set (y := Zpow_facts.Zpow_mod x (p - 2) p) in *.
-    assert (Hy : 0 <= y < p) by (unfold y; rewrite Zpow_facts.Zpow_mod_correct by lia; apply Z.mod_pos_bound; lia).
-    destruct (Z.eqb_spec y 0) as [E|NE].
-    + rewrite E, Z.mul_0_r, Z.mod_0_l in F by lia. discriminate.
-    + exists y. split; [reflexivity|]. split; [exact F|lia].
-Qed.
-
-Theorem invert_zero p x : 2 < p -> x mod p = 0 -> invert x p = None.
-Proof.
-  intros Hp Hx. unfold invert. destruct (Z.eqb_spec p 2); [lia|].
-  rewrite Zpow_facts.Zpow_mod_correct by lia.
-  assert (E : x ^ (p - 2) mod p = 0).
-  { replace (p - 2) with (Z.succ (p - 3)) by lia. rewrite Z.pow_succ_r by lia.
-    rewrite Z.mul_mod, Hx by lia. rewrite Z.mul_0_l. apply Z.mod_0_l. lia. }
-  rewrite E. reflexivity.
-Qed.
